@@ -8,7 +8,7 @@ CONFIG = {
                 'flags': ['-fopenmp', '-DDMLC_CORE_VERIF_BUFFER_WORDS=1'],
                 'args': ['--prop', 'C11']},
     'rule': 'cases = documents (corpus of the finding witnesses and unit-test documents; every token string of length <= 3 '
-            '(thorough: 5) over a 12-13 token alphabet per format, alone and in front of a fixed tail; random multi-line '
+            '(thorough: 4) over a 12-13 token alphabet per format, alone and in front of a fixed tail; random multi-line '
             'documents whose lines mostly share one shape) x configurations (ParseBlock with NUL / foreign trailing bytes, each '
             'line alone, FillData with 2..max threads, LineSplitter pipelines with 1-16 word buffers x 1-4 parts x 1..max '
             'threads, indexing_mode 0/1, 32/64-bit indices, csv float/int32/int64); a case is non-trivial when the '
@@ -22,7 +22,13 @@ CONFIG = {
     'trusted_base': ['modelled by hand, tied by correspondence only: control flow of ParsePair / ParseTriple / '
                      'IgnoreCommentAndBlank / the three ParseBlock bodies / BackFindEndLine / FillData / ParserImpl::Next / '
                      'GetBlock / operator[]'],
-    'partial': [],
+    'partial': ['C11_block_is_concat_of_lines_csv_statement: stated, not proved (the csv cell / line loop has no list '
+                'specification yet; csv is covered by correspondence + oracle only); libsvm and libfm are proved in full',
+                'C11_thread_invariant_nary_* / C11_chunk_invariant_* / C11_part_invariant_* (libsvm, libfm): proved for any '
+                'number of pieces against the abstract hypothesis "every cut is at / directly after an end-of-line byte"; '
+                'that FillData\'s nstep/sbegin/send + BackFindEndLine slices have this shape is tied by correspondence (`fill` '
+                'ops compare slices and blocks), not by a theorem; for chunks / parts the hypothesis is C03\'s',
+                'C11_trailing_bytes_irrelevant_*, C11_blank_and_comment_lines_*: libsvm + libfm only'],
 }
 
 MANIFEST = {
